@@ -371,4 +371,271 @@ theorem zigzag_range (bits : Nat) (v : Int) (h : -(2 ^ bits : Int) ≤ v ∧ v <
   unfold zigzagEnc
   split <;> omega
 
+/-! ### framing of strings, bytes, uuid, bool, float, error codes, time -/
+
+
+theorem readExact_append' {n : Int} (p rest : Bytes) (h : n = (p.length : Int)) :
+    readExact n (p ++ rest) = .ok (p, rest) := by
+  subst h; exact readExact_append p rest
+
+theorem uvarintCtor_ok {n : Int} {k : Nat} (h : uvarintCtor n = .ok k) : (k : Int) = n ∧ k < 2 ^ 35 := by
+  unfold uvarintCtor at h
+  split at h
+  · rename_i hc; injection h with h; subst h
+    constructor
+    · omega
+    · have : ((2 ^ 35 : Nat) : Int) = 2 ^ 35 := by norm_cast
+      omega
+  · contradiction
+
+theorem pow128_5 : (128 : Nat) ^ 5 = 2 ^ 35 := by decide
+
+/-- compact (uvarint length+1) payload framing -/
+theorem compact_core_roundtrip (p rest : Bytes) (n : Nat) (hn : (n : Int) = (p.length : Int) + 1)
+    (hlt : n < 2 ^ 35) (nullable : Bool) :
+    readCompactStringAsBytesCore nullable (encVarint n ++ p ++ rest) = .ok (some p, rest) := by
+  unfold readCompactStringAsBytesCore
+  rw [List.append_assoc, varint_roundtrip 4 n (by rw [pow128_5]; exact hlt)]
+  have hn0 : n ≠ 0 := by omega
+  simp only [bind, Except.bind, hn0, if_false]
+  have : (n : Int) - 1 = (p.length : Int) := by omega
+  rw [this, readExact_append]
+  rfl
+
+theorem compact_core_null (rest : Bytes) :
+    readCompactStringAsBytesCore true (encVarint 0 ++ rest) = .ok (none, rest) := by
+  unfold readCompactStringAsBytesCore
+  rw [varint_roundtrip 4 0 (by decide)]
+  rfl
+
+theorem legacy_core_roundtrip (w : Nat) (hw : 0 < w) (p l rest : Bytes)
+    (hl : encIntN w true p.length = .ok l) (nullable : Bool) :
+    readLegacyCore w nullable (l ++ p ++ rest) = .ok (some p, rest) := by
+  unfold readLegacyCore
+  rw [List.append_assoc, int_roundtrip w hw true _ l _ hl]
+  have : ¬ ((p.length : Int) = -1) := by omega
+  simp only [bind, Except.bind, this, if_false]
+  rw [readExact_append]
+  rfl
+
+theorem legacy_core_null (w : Nat) (hw : 0 < w) (l rest : Bytes)
+    (hl : encIntN w true (-1) = .ok l) :
+    readLegacyCore w true (l ++ rest) = .ok (none, rest) := by
+  unfold readLegacyCore
+  rw [int_roundtrip w hw true _ l _ hl]
+  rfl
+
+
+theorem readInt_roundtrip (w : Nat) (hw : 0 < w) (s : Bool) (i : Int) (bs rest : Bytes)
+    (h : writeIntN w s (.int i) = .ok bs) :
+    (do let (i, r) ← decIntN w s (bs ++ rest); pure (Value.int i, r) : Except Err (Value × Bytes))
+      = .ok (.int i, rest) := by
+  simp only [writeIntN, Value.asInt?] at h
+  rw [int_roundtrip w hw s i bs rest h]; rfl
+
+theorem float64_roundtrip (b : Nat) (hb : b < 2 ^ 64) (bs rest : Bytes)
+    (h : writeFloat64 (.float b) = .ok bs) : readFloat64 (bs ++ rest) = .ok (.float b, rest) := by
+  simp only [writeFloat64] at h
+  injection h with h; subst h
+  unfold readFloat64
+  have := readExact_append' (n := 8) (natBE 8 b) rest (by rw [natBE_length]; rfl)
+  simp only [bind, Except.bind, this, pure, Except.pure]
+  rw [beNat_natBE 8 b (by rw [pow8]; exact hb)]
+
+theorem boolean_roundtrip (b : Bool) (bs rest : Bytes) (h : writeBoolean (.bool b) = .ok bs) :
+    readBoolean (bs ++ rest) = .ok (.bool b, rest) := by
+  simp only [writeBoolean, Value.truthy] at h
+  injection h with h; subst h
+  cases b <;> simp [readBoolean, readExact, beNat, bind, Except.bind, pure, Except.pure]
+
+theorem uuid_roundtrip (v : Value) (hv : v = .none ∨ ∃ b, v = .uuid b ∧ b.length = 16 ∧ b ≠ uuidZero)
+    (bs rest : Bytes) (h : writeUuid v = .ok bs) : readUuid (bs ++ rest) = .ok (v, rest) := by
+  rcases hv with rfl | ⟨b, rfl, hl, hz⟩
+  · simp only [writeUuid] at h; injection h with h; subst h
+    unfold readUuid
+    have := readExact_append' (n := 16) uuidZero rest (by simp [uuidZero])
+    simp only [bind, Except.bind, this, pure, Except.pure, if_true]
+  · simp only [writeUuid] at h; injection h with h; subst h
+    unfold readUuid
+    have := readExact_append' (n := 16) b rest (by rw [hl]; rfl)
+    simp only [bind, Except.bind, this, pure, Except.pure, hz, if_false]
+
+theorem errorCode_roundtrip (codes : List Int) (i : Int) (hi : codes.contains i = true)
+    (bs rest : Bytes) (h : writeErrorCode (.int i) = .ok bs) :
+    readErrorCode codes (bs ++ rest) = .ok (.int i, rest) := by
+  simp only [writeErrorCode] at h
+  unfold readErrorCode
+  rw [int_roundtrip 2 (by omega) true i bs rest h]
+  have hi' : i ∈ codes := by simpa using hi
+  simp [bind, Except.bind, hi', pure, Except.pure]
+
+theorem decodeUtf8_ok (p : Bytes) (h : validUtf8 p = true) : decodeUtf8 p = .ok (.str p) := by
+  simp [decodeUtf8, h]
+
+
+/-- compact string / bytes writers: both readers agree with them -/
+theorem writeNullableCompactString_payload {v : Value} {p : Bytes} (hp : v.payload? = some p)
+    {bs : Bytes} (h : writeNullableCompactString v = .ok bs) :
+    ∃ n : Nat, (n : Int) = (p.length : Int) + 1 ∧ n < 2 ^ 35 ∧ bs = encVarint n ++ p := by
+  cases v <;> simp [Value.payload?] at hp <;> subst hp <;>
+    simp only [writeNullableCompactString, Value.payload?] at h <;>
+    (obtain ⟨n, hn, h⟩ := bind_ok h
+     obtain ⟨h1, h2⟩ := uvarintCtor_ok hn
+     simp only [pure, Except.pure] at h
+     injection h with h
+     exact ⟨n, h1, h2, h.symm⟩)
+
+theorem compactString_roundtrip (nullable : Bool) (p : Bytes) (hp : validUtf8 p = true) (bs rest : Bytes)
+    (h : writeNullableCompactString (.str p) = .ok bs) :
+    (do let (o, r) ← readCompactStringAsBytesCore nullable (bs ++ rest)
+        match o with
+        | some b => do let s ← decodeUtf8 b; pure (s, r)
+        | none => pure (Value.none, r) : Except Err (Value × Bytes)) = .ok (.str p, rest) := by
+  obtain ⟨n, h1, h2, rfl⟩ := writeNullableCompactString_payload (p := p) rfl h
+  rw [compact_core_roundtrip p rest n h1 h2]
+  simp [bind, Except.bind, decodeUtf8_ok p hp, pure, Except.pure]
+
+theorem compactBytes_roundtrip (nullable : Bool) (p : Bytes) (bs rest : Bytes)
+    (h : writeNullableCompactString (.bytes p) = .ok bs) :
+    (do let (o, r) ← readCompactStringAsBytesCore nullable (bs ++ rest)
+        match o with
+        | some b => pure (Value.bytes b, r)
+        | none => pure (Value.none, r) : Except Err (Value × Bytes)) = .ok (.bytes p, rest) := by
+  obtain ⟨n, h1, h2, rfl⟩ := writeNullableCompactString_payload (p := p) rfl h
+  rw [compact_core_roundtrip p rest n h1 h2]
+  simp [bind, Except.bind, pure, Except.pure]
+
+theorem compactNull_string (bs rest : Bytes) (h : writeNullableCompactString .none = .ok bs) :
+    readCompactStringNullable (bs ++ rest) = .ok (.none, rest) := by
+  simp only [writeNullableCompactString] at h
+  injection h with h; subst h
+  unfold readCompactStringNullable
+  rw [compact_core_null]; rfl
+
+theorem compactNull_bytes (bs rest : Bytes) (h : writeNullableCompactString .none = .ok bs) :
+    readCompactStringAsBytesNullable (bs ++ rest) = .ok (.none, rest) := by
+  simp only [writeNullableCompactString] at h
+  injection h with h; subst h
+  unfold readCompactStringAsBytesNullable
+  rw [compact_core_null]; rfl
+
+theorem writeNullableLegacyString_str {p bs : Bytes} (h : writeNullableLegacyString (.str p) = .ok bs) :
+    ∃ l, encIntN 2 true p.length = .ok l ∧ bs = l ++ p := by
+  simp only [writeNullableLegacyString] at h
+  split at h
+  · obtain ⟨l, hl, h⟩ := bind_ok h
+    simp only [pure, Except.pure] at h; injection h with h
+    exact ⟨l, hl, h.symm⟩
+  · contradiction
+
+theorem legacyString_roundtrip (nullable : Bool) (p : Bytes) (hp : validUtf8 p = true) (bs rest : Bytes)
+    (h : writeNullableLegacyString (.str p) = .ok bs) :
+    (do let (o, r) ← readLegacyCore 2 nullable (bs ++ rest)
+        match o with
+        | some b => do let s ← decodeUtf8 b; pure (s, r)
+        | none => pure (Value.none, r) : Except Err (Value × Bytes)) = .ok (.str p, rest) := by
+  obtain ⟨l, hl, rfl⟩ := writeNullableLegacyString_str h
+  rw [legacy_core_roundtrip 2 (by omega) p l rest hl]
+  simp [bind, Except.bind, decodeUtf8_ok p hp, pure, Except.pure]
+
+theorem legacyString_null (bs rest : Bytes) (h : writeNullableLegacyString .none = .ok bs) :
+    readNullableLegacyString (bs ++ rest) = .ok (.none, rest) := by
+  simp only [writeNullableLegacyString] at h
+  unfold readNullableLegacyString
+  rw [legacy_core_null 2 (by omega) bs rest h]; rfl
+
+theorem writeNullableLegacyBytes_bytes {p bs : Bytes} (h : writeNullableLegacyBytes (.bytes p) = .ok bs) :
+    ∃ l, encIntN 4 true p.length = .ok l ∧ bs = l ++ p := by
+  simp only [writeNullableLegacyBytes] at h
+  split at h
+  · obtain ⟨l, hl, h⟩ := bind_ok h
+    simp only [pure, Except.pure] at h; injection h with h
+    exact ⟨l, hl, h.symm⟩
+  · contradiction
+
+theorem legacyBytes_roundtrip (nullable : Bool) (p : Bytes) (bs rest : Bytes)
+    (h : writeNullableLegacyBytes (.bytes p) = .ok bs) :
+    (do let (o, r) ← readLegacyCore 4 nullable (bs ++ rest)
+        match o with
+        | some b => pure (Value.bytes b, r)
+        | none => pure (Value.none, r) : Except Err (Value × Bytes)) = .ok (.bytes p, rest) := by
+  obtain ⟨l, hl, rfl⟩ := writeNullableLegacyBytes_bytes h
+  rw [legacy_core_roundtrip 4 (by omega) p l rest hl]
+  simp [bind, Except.bind, pure, Except.pure]
+
+theorem legacyBytes_null (bs rest : Bytes) (h : writeNullableLegacyBytes .none = .ok bs) :
+    readNullableLegacyBytes (bs ++ rest) = .ok (.none, rest) := by
+  simp only [writeNullableLegacyBytes] at h
+  unfold readNullableLegacyBytes
+  rw [legacy_core_null 4 (by omega) bs rest h]; rfl
+
+/-! durations and timestamps (repaired arithmetic) -/
+
+theorem msOfMicrosExact_whole (us : Int) (h : us % 1000 = 0) : msOfMicrosExact us = us / 1000 := by
+  unfold msOfMicrosExact
+  simp only [h]
+  simp
+
+theorem timedelta_roundtrip (cfg : TimeCfg) (hc : cfg.tdExact = true) (w : Nat) (hw : 0 < w)
+    (us : Int) (h1000 : us % 1000 = 0)
+    (hr : -86399999913600000000 ≤ us ∧ us ≤ 86399999999999999999) (bs rest : Bytes)
+    (h : writeTimedelta cfg w (.timedelta us) = .ok bs) :
+    (do let (n, r) ← decIntN w true (bs ++ rest)
+        let v ← timedeltaOfMs n
+        pure (v, r) : Except Err (Value × Bytes)) = .ok (.timedelta us, rest) := by
+  simp only [writeTimedelta, msOfTimedelta, hc, if_true, msOfMicrosExact_whole us h1000] at h
+  rw [int_roundtrip w hw true _ bs rest h]
+  have hus : us / 1000 * 1000 = us := by omega
+  have : timedeltaOfMs (us / 1000) = .ok (.timedelta us) := by
+    unfold timedeltaOfMs
+    simp only [hus]
+    rw [if_pos (by constructor <;> omega)]
+  simp [bind, Except.bind, this, pure, Except.pure]
+
+/-- CPython's float arithmetic is exact on whole-millisecond timestamps (proved in Proofs/Float) -/
+def FloatExact : Prop := ∀ k : Int, 0 ≤ k → k ≤ 253402300799999 → msOfMicrosFloat (k * 1000) = k
+
+theorem tzAware_repaired (ms : Int) (h0 : 0 ≤ ms) (h1 : ms ≤ 253402300799999) :
+    tzAwareFromI64 TimeCfg.repaired ms = .ok (.datetime (ms * 1000)) := by
+  unfold tzAwareFromI64 TimeCfg.repaired
+  simp only [if_true]
+  have : timedeltaOfMs ms = .ok (.timedelta (ms * 1000)) := by
+    unfold timedeltaOfMs
+    simp only
+    rw [if_pos (by constructor <;> omega)]
+  rw [this]
+  have hs : ¬ (ms / 1000 < minDatetimeSec ∨ maxDatetimeSec < ms / 1000) := by
+    unfold minDatetimeSec maxDatetimeSec; omega
+  simp only [hs, if_false]
+  rw [if_neg (by omega)]
+
+theorem datetime_roundtrip (hfl : FloatExact) (us : Int) (h1000 : us % 1000 = 0) (h0 : 0 ≤ us)
+    (h1 : us ≤ 253402300799999000) (bs rest : Bytes)
+    (h : writeDatetimeI64 (.datetime us) = .ok bs) :
+    readDatetimeI64 TimeCfg.repaired (bs ++ rest) = .ok (.datetime us, rest)
+    ∧ readNullableDatetimeI64 TimeCfg.repaired (bs ++ rest) = .ok (.datetime us, rest) := by
+  have hus : us / 1000 * 1000 = us := by omega
+  have hfx : msOfMicrosFloat us = us / 1000 := by
+    have := hfl (us / 1000) (by omega) (by omega)
+    rwa [hus] at this
+  simp only [writeDatetimeI64, hfx] at h
+  have htz := tzAware_repaired (us / 1000) (by omega) (by omega)
+  rw [hus] at htz
+  constructor
+  · unfold readDatetimeI64
+    rw [int_roundtrip 8 (by omega) true _ bs rest h]
+    simp [bind, Except.bind, htz, pure, Except.pure]
+  · unfold readNullableDatetimeI64
+    rw [int_roundtrip 8 (by omega) true _ bs rest h]
+    have : ¬ (us / 1000 = -1) := by omega
+    simp [bind, Except.bind, htz, this, pure, Except.pure]
+
+theorem datetime_null (cfg : TimeCfg) (bs rest : Bytes) (h : writeNullableDatetimeI64 .none = .ok bs) :
+    readNullableDatetimeI64 cfg (bs ++ rest) = .ok (.none, rest) := by
+  simp only [writeNullableDatetimeI64] at h
+  unfold readNullableDatetimeI64
+  rw [int_roundtrip 8 (by omega) true _ bs rest h]
+  rfl
+
+
 end Kio
